@@ -29,7 +29,9 @@ func CString(s string) *int8 {
 
 func CBytes(b []byte) *int8 {
 	p := c.Malloc(uintptr(len(b)))
-	c.Memcpy(p, unsafe.Pointer(&b[0]), uintptr(len(b)))
+	if len(b) > 0 {
+		c.Memcpy(p, unsafe.Pointer(&b[0]), uintptr(len(b)))
+	}
 	return (*int8)(p)
 }
 
@@ -48,5 +50,10 @@ func GoStringN(p *int8, n int) string {
 }
 
 func GoBytes(p *int8, n int) []byte {
-	return (*[1 << 30]byte)(unsafe.Pointer(p))[:n:n]
+	// like cgo's C.GoBytes: the result is a copy that does not alias C memory
+	b := make([]byte, n)
+	if n > 0 {
+		c.Memcpy(unsafe.Pointer(&b[0]), unsafe.Pointer(p), uintptr(n))
+	}
+	return b
 }
